@@ -448,6 +448,48 @@ def later_session(res, sp):
     shutil.rmtree(work, True)
 
 
+def earlier_session(res, sp):
+    """a recording that starts in its fourth file period exists and has been read; a second recorder then starts at the
+    first period and writes forward INTO the recorded period (its call that reaches it is refused, after it has opened
+    files of its own).  What the first reader could read stays readable and unchanged, for it and for a fresh reader;
+    the finalized files keep their bytes"""
+    pf = max(1, sp["file_cadence_ms"] * sp["srn"] // (1000 * sp["srd"]))
+    if pf > 5000:
+        return
+    work = common.scratch_dir("c09earlier-")
+    top = os.path.join(work, "top")
+    sp1 = dict(sp, writes=[[3 * pf, pf + 30]], name=sp["name"] + "-first-run-from-the-4th-period")
+    sp2 = dict(sp, writes=[[0, pf + 50], [pf + 50, 2 * pf]], name=sp["name"] + "-second-run-from-the-1st-period")
+    for x in (sp1, sp2):
+        x.pop("apis", None)
+    inp = {"recording": sp["name"], "spec": sp1, "second_spec": sp2, "label": "earlier-session-runs-into-recorded-period"}
+    P.run_writer(sp1, top)
+    try:
+        old, seen1 = P.reader_pass(top, sp1)
+    except Exception as e:  # noqa
+        res.violation("reader-fails-after-close", "a reader fails on a complete recording", inp, "all samples", repr(e)[:200])
+        return
+    before = {f: h for f, h in P.tree_digest(top).items() if P.is_final_data(f)}
+    P.run_writer(sp2, top)
+    after = P.tree_digest(top)
+    res.count("earlier_session_checked")
+    changed = sorted(f for f, h in before.items() if after.get(f) != h)
+    if changed:
+        res.violation("finalized-file-modified", "a data file finalized by an earlier run was replaced by a recorder that wrote "
+                      "forward into its period", inp, "bytes unchanged", changed)
+    for name, rd in (("long-lived", old), ("fresh", None)):
+        try:
+            _r, seen = P.reader_pass(top, sp1 if rd is not None else sp2, reader=rd)
+        except Exception as e:  # noqa
+            res.violation("reader-fails-after-close", "a %s reader fails after the second run" % name, inp, "the earlier samples",
+                          repr(e)[:200])
+            continue
+        if not seen1.subset_of(seen):
+            res.violation("visibility-shrinks", "samples a reader could read before the second run are no longer readable or changed "
+                          "(%s reader)" % name, inp, seen1.brief(), seen.brief())
+    shutil.rmtree(work, True)
+
+
 def run(res):
     common.use_impl()
     res.rule = ("one case = one point between two file-system operations of a single-stepped real writer, at which a "
@@ -475,6 +517,7 @@ def run(res):
             for later in (False, True):
                 P.restart_after_kill(res, sp, i, tmp_rel, later, concurrent=True)
         later_session(res, sp)
+        earlier_session(res, sp)
         res.sample({"recording": sp["name"], "ops": b.n,
                     "props_variant": {0: "Direct", 1: "Staged", None: "none"}[b.vp]})
         shutil.rmtree(b.work, True)
@@ -514,6 +557,22 @@ def replay(res, rp):
         return 0
     if sp and inp.get("label") == "restart-after-kill":
         return P.replay_restart(res, rp)
+    if sp and inp.get("label") == "earlier-session-runs-into-recorded-period":
+        work = common.scratch_dir("c09replay-")
+        top = os.path.join(work, "top")
+        P.run_writer(sp, top)
+        old, seen1 = P.reader_pass(top, sp)
+        before = {f: h for f, h in P.tree_digest(top).items() if P.is_final_data(f)}
+        outc, rc, err = P.run_writer(inp["second_spec"], top)
+        after = P.tree_digest(top)
+        print("second run outcomes:", [(o["call"], o["ok"]) for o in outc])
+        changed = sorted(f for f, h in before.items() if after.get(f) != h)
+        print("finalized files whose bytes changed:", changed)
+        _r, seen = P.reader_pass(top, sp, reader=old)
+        print("the first reader saw", seen1.brief(), "and now sees", seen.brief())
+        bad = bool(changed) or not seen1.subset_of(seen)
+        print("replay verdict:", "STILL VIOLATING" if bad else "no longer violating")
+        return 1 if bad else 0
     if sp and inp.get("label") == "later-session-refused-then-later-period":
         work = common.scratch_dir("c09replay-")
         top = os.path.join(work, "top")
